@@ -41,7 +41,7 @@ CHECKS['C05'] = dict(text='Bounded symbolic execution of the real expression ren
 TRUST_K = ('Trusted base: Kani 0.68 / CBMC 6.11 (cadical) over the compiled crate (path dependency on /repo, dev profile, overflow checks on); harnesses in /verif/kani/src. '
            'Every harness has a kani::cover reachability witness (vacuity guard) and runs with unwinding assertions; a failed harness is replayed natively with Kani concrete playback before a VIOLATION is reported; '
            'timeouts / OOM / non-reproducing counterexamples are INCONCLUSIVE (exit 2). ')
-CHECKS['C12'] = dict(text='Kani proof harnesses decide, for the full range of every scalar type (bool, i8..i64, u8..u64, f32/f64 by bit pattern, char), Option of each, short Strings / byte vectors, every (source variant, target type) pair of the 14 default variants, tuples of every arity 1..12, and (harness crate feature `ext`) Uuid, Decimal, the chrono and time date / time types, MacAddress, IpNetwork and Vec<i32> arrays built from arbitrary inputs through their own checked constructors, '
+CHECKS['C12'] = dict(text='Kani proof harnesses decide, for the full range of every scalar type (bool, i8..i64, u8..u64, f32/f64 by bit pattern, char), Option of each, short Strings / byte vectors, every (source variant, target type) pair of the 14 default variants, tuples of every arity 1..12 (and extraction at a different arity, which must fail), and (harness crate feature `ext`) Uuid, Decimal, the chrono and time date / time types, MacAddress, IpNetwork and Vec<i32> arrays built from arbitrary inputs through their own checked constructors, '
                   'that Value::from / ValueType::try_from / Nullable::null / as_null / dummy_value / into_value_tuple / from_value_tuple round-trip exactly, fail on a foreign variant and keep arity and order. CBMC proves each assertion for every input within the stated sizes.',
              note=TRUST_K + 'Outside: serde_json::Value and BigDecimal (CBMC does not finish even the NULL round trip of these recursive / heap-backed payloads within 300 s), DateTime<Local>, pgvector, arrays of other element types, strings longer than 2.',
              technique='bounded model checking of the compiled code with Kani/CBMC (SAT) over kani::any() inputs', ref='6/C12', engine=ENGINE_K)
